@@ -46,6 +46,9 @@ class Harness:
 
     def stub_source(self, module, split):
         names = ', '.join(self.arg_names())
+        pre_text = self.pre_text()
+        if isinstance(split, dict) and split.get('_pre'):
+            pre_text += ' and (' + split['_pre'] + ')'     # split-specific constraint: pruned by the solver, not by running paths
         return f'''import typing
 from {module} import HARNESSES as _H
 _impl = _H[{self.name!r}].impl
@@ -56,7 +59,7 @@ SPLIT = _json.loads(SPLIT)
 
 def h({self.sig_text()}) -> bool:
     """
-    pre: {self.pre_text()}
+    pre: {pre_text}
     post: _
     """
     return _impl(SPLIT{', ' + names if names else ''})
@@ -64,7 +67,7 @@ def h({self.sig_text()}) -> bool:
 
 def twin({self.sig_text()}) -> bool:
     """
-    pre: {self.pre_text()}
+    pre: {pre_text}
     post: _
     """
     _impl(SPLIT{', ' + names if names else ''})
